@@ -60,10 +60,14 @@ def instances(tier, rng):
                 always.append({"ign": off})
                 always.append({"ign": off, "opt": rng.choice([{"use_min_gen_set_lowerbound": True}, {"optimize_with_guessed_weights": True},
                                                               {"optimize_with_safe_sequences": False}])})
+        # safe-sequence fixings through queued bounds, under a finite time limit with the wrapper's own timeout armed too
+        always.append({"opt": {"optimize_with_safe_sequences": True, "optimize_with_safe_sequences_fix_via_bounds": True,
+                               "optimize_with_safe_sequences_fix_zero_edges": True},
+                       "sopt": {"time_limit": 300, "use_also_custom_timeout": True}})
         always.append({"mode": "node", "opt": rng.choice([{"use_min_gen_set_lowerbound": True},
                                                           {"optimize_with_guessed_weights": True, "use_min_gen_set_lowerbound": True,
                                                            "add_min_gen_set_to_given_weights": True}])})
-        for cfg in cfgs + (rng.sample(extra, 2) + rng.sample(always, min(2, len(always))) if quick else extra + always):
+        for cfg in cfgs + (rng.sample(extra, 2) + rng.sample(always, min(3, len(always))) if quick else extra + always):
             r = C.base(u, "MinFlowDecompCycles", cfg.get("mode", "edge"))
             r["wt"] = "int"
             r["expect_solved"] = True
